@@ -48,7 +48,12 @@ fn gate_name(label: &str) -> &str {
     label.split('/').nth(1).unwrap_or("")
 }
 
-fn build_rt(notify: Arc<tokio::sync::Notify>) -> tokio::runtime::Runtime {
+type HandleSlot = Arc<Mutex<Option<tokio::runtime::Handle>>>;
+
+/// The park callback needs the runtime's own handle (metrics): the slot that holds it forms a reference cycle
+/// (runtime -> callback -> handle -> runtime) and MUST be cleared before the runtime is dropped, otherwise the I/O
+/// driver (an epoll fd and an eventfd) of every execution leaks and the process runs out of descriptors after ~10 000.
+fn build_rt(notify: Arc<tokio::sync::Notify>) -> (tokio::runtime::Runtime, HandleSlot) {
     let hslot: Arc<Mutex<Option<tokio::runtime::Handle>>> = Arc::new(Mutex::new(None));
     let hs = hslot.clone();
     let rt = tokio::runtime::Builder::new_current_thread()
@@ -78,7 +83,7 @@ fn build_rt(notify: Arc<tokio::sync::Notify>) -> tokio::runtime::Runtime {
         .build()
         .unwrap();
     *hslot.lock().unwrap() = Some(rt.handle().clone());
-    rt
+    (rt, hslot)
 }
 
 fn pending_labels() -> Vec<(u64, String)> {
@@ -119,7 +124,7 @@ pub fn run_one(w: &Value, prefix: &[String]) -> Exec {
 
 fn run_one_inner(w: &Value, prefix: &[String]) -> Exec {
     let notify = Arc::new(tokio::sync::Notify::new());
-    let rt = build_rt(notify.clone());
+    let (rt, handle_slot) = build_rt(notify.clone());
     let dir = fresh_dir("e4");
     let _ = std::fs::remove_dir_all(&dir);
     let opts = w.get("opts").cloned().unwrap_or(json!({"block": 64, "rowset": 1 << 20}));
@@ -295,6 +300,7 @@ fn run_one_inner(w: &Value, prefix: &[String]) -> Exec {
         });
         Exec { trace, enabled: enabled_log, preempt, out, divergence }
     });
+    *handle_slot.lock().unwrap() = None;
     drop(rt);
     let _ = std::fs::remove_dir_all(&dir);
     let _ = take_panics();
